@@ -1,6 +1,7 @@
 package main
 
 import (
+	"fmt"
 	"go/token"
 	"go/types"
 	"sort"
@@ -313,4 +314,62 @@ func (p *Program) calleeInvokesArg(c *ssa.Call, arg ssa.Value) bool {
 		}
 	}
 	return false
+}
+
+// guardedByProbe prints, for every field of the given struct types, how many of its accesses in package pkg
+// happen with the given mutex held (must-hold, all call chains). Development probe (-probe guardedby).
+func guardedByProbe(p *Program) {
+	type key struct{ tn, f string }
+	type stat struct {
+		held, not int
+		sites    []string
+	}
+	stats := map[key]*stat{}
+	mutexOf := map[string]string{"Manager": "waddrmgr.Manager.mtx", "ScopedKeyManager": "waddrmgr.ScopedKeyManager.mtx"}
+	memo := map[ssa.Instruction]lockState{}
+	for _, fn := range p.FuncsIn("waddrmgr") {
+		for _, b := range fn.Blocks {
+			for _, ins := range b.Instrs {
+				fa, ok := ins.(*ssa.FieldAddr)
+				if !ok {
+					continue
+				}
+				tn, f := fieldAddrName(fa)
+				mu, ok := mutexOf[tn]
+				if !ok || f == "mtx" {
+					continue
+				}
+				held, ok := memo[ins]
+				if !ok {
+					held, _ = p.heldUpward(ins, 0, map[*ssa.Function]bool{})
+					memo[ins] = held
+				}
+				k := key{tn, f}
+				st := stats[k]
+				if st == nil {
+					st = &stat{}
+					stats[k] = st
+				}
+				if held[mu] || held[mu+"(R)"] {
+					st.held++
+				} else {
+					st.not++
+					st.sites = append(st.sites, fnName(fn)+"@"+p.Pos(ins.Pos()))
+				}
+			}
+		}
+	}
+	var ks []key
+	for k := range stats {
+		ks = append(ks, k)
+	}
+	sort.Slice(ks, func(i, j int) bool { return ks[i].tn+ks[i].f < ks[j].tn+ks[j].f })
+	for _, k := range ks {
+		st := stats[k]
+		fmt.Printf("%-18s %-26s held=%3d not=%3d", k.tn, k.f, st.held, st.not)
+		if st.not > 0 && st.not <= 12 {
+			fmt.Printf("  %v", st.sites)
+		}
+		fmt.Println()
+	}
 }
